@@ -60,3 +60,17 @@ def construct_inside_binding_target(text: str | None, case: Any) -> bool:
                 if getattr(sub, "lineno", None) == line and getattr(sub, "col_offset", None) == col and isinstance(getattr(sub, "ctx", None), ast.Load):
                     return True
     return False
+
+
+def proc_macro_text_has_curly_or_at_paren(text: str | None, case: Any) -> bool:
+    raw = case.get("raw", "") if isinstance(case, dict) else ""
+    return any(t in raw for t in ("{", "}", "@(", "@$(", "${"))
+
+
+def proc_macro_text_has_nonword_token(text: str | None, case: Any) -> bool:
+    """Raw text of a subprocess macro holding a search path, an f-string or nested brackets (tokens any_cmd lacks)."""
+    import re
+
+    raw = case.get("raw", "") if isinstance(case, dict) else ""
+    nested = bool(re.search(r"[(\[][^)\]]*[(\[]", raw))
+    return "`" in raw or bool(re.search(r"(?i)(?<![a-z0-9_])[rbup]*f[rbup]*['\"]", raw)) or nested
